@@ -92,6 +92,7 @@ type State struct {
 	ghost    map[string]Term
 	pc       []string
 	pcSet    map[string]bool
+	eqConst  map[string]string
 	defers   map[int][]deferRec // by frame id
 	trace    []string
 	loopIn   map[loopKey]*loopEntry
@@ -104,6 +105,14 @@ type State struct {
 	dead     bool
 	writes   *WriteSet
 	chanInfo map[string]*chanInfo
+	named    []namedRef
+}
+
+type namedRef struct {
+	name  string
+	frame int
+	ref   Term
+	typ   types.Type // pointer type
 }
 
 type loopKey struct {
@@ -187,6 +196,10 @@ func (s *State) clone() *State {
 		n.ghost[k] = v
 	}
 	n.pc = append([]string{}, s.pc...)
+	n.eqConst = make(map[string]string, len(s.eqConst))
+	for k, v := range s.eqConst {
+		n.eqConst[k] = v
+	}
 	n.pcSet = make(map[string]bool, len(s.pcSet))
 	for k := range s.pcSet {
 		n.pcSet[k] = true
@@ -202,6 +215,7 @@ func (s *State) clone() *State {
 		n.shared[k] = v
 	}
 	n.held = append([]string{}, s.held...)
+	n.named = append([]namedRef{}, s.named...)
 	return n
 }
 
@@ -225,6 +239,54 @@ func (s *State) assume(f string) {
 	}
 	s.pcSet[f] = true
 	s.pc = append(s.pc, f)
+	if t, c, ok := eqNumeral(f); ok {
+		if s.eqConst == nil {
+			s.eqConst = map[string]string{}
+		}
+		s.eqConst[t] = c
+	}
+	if t, c, ok := isTester(f); ok {
+		if s.eqConst == nil {
+			s.eqConst = map[string]string{}
+		}
+		s.eqConst["dyn:"+t] = c
+	}
+}
+
+// isTester recognises ((_ is C) T).
+func isTester(f string) (string, string, bool) {
+	if !strings.HasPrefix(f, "((_ is ") || !strings.HasSuffix(f, ")") {
+		return "", "", false
+	}
+	i := strings.Index(f, ") ")
+	if i < 0 {
+		return "", "", false
+	}
+	return f[i+2 : len(f)-1], f[7:i], true
+}
+
+// eqNumeral recognises (= T c) / (= c T) with c a numeral or a string literal constant.
+func eqNumeral(f string) (string, string, bool) {
+	if !strings.HasPrefix(f, "(= ") || !strings.HasSuffix(f, ")") {
+		return "", "", false
+	}
+	parts := splitSexp(f[3 : len(f)-1])
+	if len(parts) != 2 {
+		return "", "", false
+	}
+	isC := func(x string) bool {
+		if _, ok := parseSmallInt(x); ok {
+			return true
+		}
+		return strings.HasPrefix(x, "str_lit_") || x == "str_empty"
+	}
+	switch {
+	case isC(parts[1]) && !isC(parts[0]):
+		return parts[0], parts[1], true
+	case isC(parts[0]) && !isC(parts[1]):
+		return parts[1], parts[0], true
+	}
+	return "", "", false
 }
 
 // known reports whether f is syntactically implied (1) or refuted (-1) by
@@ -235,6 +297,22 @@ func (s *State) known(f string) int {
 	}
 	if s.pcSet[not(f)] {
 		return -1
+	}
+	if t, c, ok := eqNumeral(f); ok {
+		if c2, ok := s.eqConst[t]; ok {
+			if c2 == c {
+				return 1
+			}
+			return -1
+		}
+	}
+	if t, c, ok := isTester(f); ok {
+		if c2, ok := s.eqConst["dyn:"+t]; ok {
+			if c2 == c {
+				return 1
+			}
+			return -1
+		}
 	}
 	return 0
 }
